@@ -59,6 +59,8 @@ class Attribute:
         self._representation_code = representation_code if representation_code is not None else self._default_repr_code
         self._units = units
         self._value = value
+        self._value_stamp: Any = None  #: a new object at every assignment of the value (tells assignments apart)
+        self._units_stamp: Any = None  #: the same for the units
         self._converter = converter  # to convert value
         self.parent_eflr = parent_eflr
 
@@ -97,6 +99,7 @@ class Attribute:
         """Set a new value of the attribute. Use the provided converter (if any) to transform/validate the value."""
 
         self._value = self.convert_value(val)
+        self._value_stamp = object()
 
     @property
     def representation_code(self) -> Union[RepresentationCode, None]:
@@ -154,6 +157,7 @@ class Attribute:
 
         self._unit_checker(units)
         self._units = units
+        self._units_stamp = object()
 
     @property
     def count(self) -> Union[int, None]:
